@@ -87,7 +87,8 @@ class PositiveScalar(RegionAttribute):
             raise ValueError(f'{self.name!r} must be a scalar integer or '
                              'float')
 
-        if not np.isscalar(value) or value <= 0:
+        if (not np.isscalar(value) or not np.isfinite(value)
+                or value <= 0):
             raise ValueError(f'{self.name!r} must be a strictly positive '
                              'scalar')
 
@@ -147,7 +148,7 @@ class PositiveScalarAngle(RegionAttribute):
             if not value.unit.physical_type == 'angle':
                 raise ValueError(f'{self.name!r} must have angular units')
 
-            if not value > 0:
+            if not (value > 0 and np.isfinite(value)):
                 raise ValueError(f'{self.name!r} must be strictly positive')
         else:
             raise ValueError(f'{self.name!r} must be a strictly positive '
